@@ -46,6 +46,54 @@ func blockUntilSignaled(ctx context.Context, c *sync.Cond, timeout time.Duration
 	}
 }
 
+// subscribe registers a waiter on the condition and returns a channel that is closed by the next Broadcast.
+// It returns only once the waiter is registered, so a Broadcast issued after subscribe has returned is never
+// missed.  (blockUntilSignaled registers asynchronously: a Broadcast that arrives before its helper goroutine
+// reaches c.Wait() is lost.)
+func subscribe(c *sync.Cond) <-chan struct{} {
+	ready := make(chan struct{})
+	locked := make(chan struct{})
+
+	go func() {
+		c.L.Lock()
+		close(locked)
+		c.Wait() // registers with the condition and releases c.L atomically
+		c.L.Unlock()
+		close(ready)
+	}()
+
+	// the helper holds c.L until it is registered inside Wait, so once we get the lock it is registered
+	<-locked
+	c.L.Lock()
+	c.L.Unlock()
+	return ready
+}
+
+// waitSignaled will wait for context cancellation, the subscription being signalled or timeout
+// This method will return true if we were successfully signalled.
+func waitSignaled(ctx context.Context, ready <-chan struct{}, timeout time.Duration) bool {
+	if timeout > 0 {
+		timer := time.NewTimer(timeout)
+		defer timer.Stop()
+
+		select {
+		case <-ctx.Done():
+			return false
+		case <-ready:
+			return true
+		case <-timer.C:
+			return false
+		}
+	}
+
+	select {
+	case <-ctx.Done():
+		return false
+	case <-ready:
+		return true
+	}
+}
+
 // BlockingLimiter implements a Limiter that blocks the caller when the limit has been reached.  The caller is
 // blocked until the limiter has been released.  This limiter is commonly used in batch clients that use the limiter
 // as a back-pressure mechanism.
@@ -99,7 +147,16 @@ func (l *BlockingLimiter) tryAcquire(ctx context.Context) (core.Listener, bool) 
 		// - A timeout
 		// - The context is cancelled
 		l.logger.Debugf("Blocking waiting for release or timeout ctx=%v", ctx)
-		if shouldAcquire := blockUntilSignaled(ctx, l.c, l.timeout); shouldAcquire {
+
+		// Register for the wake-up first and then try once more: a token released between the failed attempt
+		// above and the registration would otherwise be missed, its Broadcast finding nobody waiting.
+		ready := subscribe(l.c)
+		listener, ok = l.delegate.Acquire(ctx)
+		if ok && listener != nil {
+			l.logger.Debugf("delegate returned a listener ctx=%v", ctx)
+			return listener, true
+		}
+		if shouldAcquire := waitSignaled(ctx, ready, l.timeout); shouldAcquire {
 			listener, ok := l.delegate.Acquire(ctx)
 			if ok && listener != nil {
 				l.logger.Debugf("delegate returned a listener ctx=%v", ctx)
